@@ -265,6 +265,7 @@ type Violation struct {
 	Threaded  bool              `json:"threaded,omitempty"`
 	Schedule  []int             `json:"schedule,omitempty"`
 	Confirmed string            `json:"confirmed,omitempty"`
+	Tier      int               `json:"tier,omitempty"` // 1 = found in the thorough tier (verifrt.Tier)
 }
 
 type PathSample struct {
